@@ -376,11 +376,11 @@ func Main(su Suite, replayPath string) int {
 			cmd.Env = append(os.Environ(), fmt.Sprintf("VERIF_WORKER=%d/%d", i, nw), "VERIF_WORKER_OUT="+outf,
 				fmt.Sprintf("VERIF_DEADLINE=%d", deadline.Unix()), "GOMAXPROCS=1", "GOGC=200", "GOMEMLIMIT=900MiB", "VERIF_SCRATCH="+scratch)
 			cmd.Stderr = os.Stderr
-			// watchdog: workers stop by themselves at the deadline; one that is still there two
+			// watchdog: workers stop by themselves at the deadline; one that is still there five
 			// minutes later has a thread blocked outside the scheduler (infrastructure, not a verdict)
-			watchdog := time.AfterFunc(time.Until(deadline)+2*time.Minute, func() {
+			watchdog := time.AfterFunc(time.Until(deadline)+5*time.Minute, func() {
 				if cmd.Process != nil {
-					fmt.Fprintf(os.Stderr, "worker %d still running 2 minutes after the deadline: killed\n", i)
+					fmt.Fprintf(os.Stderr, "worker %d still running 5 minutes after the deadline: killed\n", i)
 					_ = cmd.Process.Kill()
 				}
 			})
